@@ -313,6 +313,11 @@ class Machine:
         if n not in self.store[src]:
             self.v("C01", "missing_checkpoint",
                    f"{a!r} but {src} holds {sorted(self.store[src])}")
+            if dst == WORK:
+                # nothing was loaded: the forward state is undefined from
+                # here until the next Forward re-establishes it
+                self.fwd = None
+                self.loaded = None
             return
         ck, ca, cb, _ = self.store[src][n]
         adj = self.adj if self.adj is not None else self.N
